@@ -40,7 +40,7 @@ def main():
     ctx = common.Context(prop, args.tier, seed)
     try:
         aud = common.audit(mod.THEOREMS, schema_groups=getattr(mod, "SCHEMA_TIE", ()), sql_modules=getattr(mod, "SQL_TIE", ()),
-                           tier=args.tier)
+                           tier=args.tier, formula_groups=getattr(mod, "FORMULA_TIE", ()))
         if args.replay:
             with open(args.replay) as fh:
                 doc = json.load(fh)
